@@ -272,8 +272,15 @@ class FuncUnit(Unit):
         return val, nat, samples
 
     def falsify(self, k, ob, samples):
-        """find a sampled admissible input at which hypotheses hold and the goal is false"""
-        for vals in samples:
+        """find a sampled admissible input at which hypotheses hold and the goal is false; undischarged
+        obligations get many more samples than the routine validation"""
+        rng = random.Random(987654321)
+        extra = []
+        for _ in range(1500):
+            v = sample_inputs(k, rng, tries=20)
+            if v is not None:
+                extra.append(v)
+        for vals in list(samples) + extra:
             try:
                 env = T.complete_env(ob.ctx, env_of(k, vals))
                 if not all(T.numeval(c, env) for c in ob.pc):
@@ -688,6 +695,8 @@ def report(prop, results, tier, seed, level, assumptions, trusted, bounded, t0, 
         os.makedirs(os.path.join(VERIF, 'baseline'), exist_ok=True)
         with open(os.path.join(VERIF, 'baseline', prop + '.json'), 'w') as f:
             json.dump({'discharged': sorted(o['name'] for o in discharged)}, f, indent=0)
+    if violations > 0:
+        exit_code = 1          # a reported violation dominates undecided obligations and engine notes
     for ln in lines:
         print(ln)
     print('SUMMARY property=%s tier=%s obligations=%d discharged=%d violations=%d exit=%d wall=%.1fs'
